@@ -13,30 +13,102 @@ import (
 	"io"
 	"os"
 	"os/exec"
+	"reflect"
 	"runtime"
 	"strings"
 	"sync"
+	"sync/atomic"
 	"time"
+	"unsafe"
 
 	"github.com/google/wuffs/lib/rac"
 	"github.com/google/wuffs/lib/raczlib"
 	"wvh/hlib"
 )
 
-// small slots (the pointer one past a buffer is the next slot, possibly free) and whole
-// spans (one past a 40 KiB / 64 KiB buffer is the next span, possibly unallocated)
-var stressSizes = []int{16, 48, 80, 224, 4096, 40960, 65536}
+// chunk sizes that are exactly one allocation slot (the pointer one past such a buffer is
+// the next slot, possibly free, or the next span, possibly unallocated); the heap is kept
+// small so that collections are short and every live object is scanned thousands of times
+// per second
+var stressSizes = []int{16, 48, 80, 224, 4096}
 
 func stressFile(chunk int) ([]byte, []byte) {
 	var out bytes.Buffer
 	w := &rac.Writer{Writer: &out, CodecWriter: &raczlib.CodecWriter{}, DChunkSize: uint64(chunk)}
 	content := make([]byte, 8*chunk)
 	for i := range content {
-		content[i] = byte(i*7 + i/251)
+		content[i] = byte(i*7+i/251) | 1 // never NUL: the writer trims trailing NULs of a chunk
 	}
 	w.Write(content)
 	w.Close()
 	return out.Bytes(), content
+}
+
+// observeDecompressor is the deterministic witness of the same defect. The crash needs the
+// collector to scan the decompressor object during the few microseconds in which zlib's
+// next_out holds a pointer one past the output buffer, so whether it happens depends on the
+// load of the machine. The cause does not: cgo's rule is that C code "must not store any Go
+// pointers in Go memory, even temporarily". While one goroutine decodes, another polls the
+// z_stream's next_out field; if the z_stream lives in Go memory (reflect: a struct field of the
+// decompressor, not a pointer to C memory) and a Go heap address shows up there, the rule is
+// broken and the collector can see a dangling one-past pointer. Exit code 4.
+func observeDecompressor(file []byte, d time.Duration) {
+	cr := &rac.ChunkReader{ReadSeeker: bytes.NewReader(file), CompressedSize: int64(len(file))}
+	chunk, err := cr.NextChunk()
+	if err != nil {
+		return
+	}
+	codec := &raczlib.CodecReader{}
+	if _, err := codec.MakeDecompressor(bytes.NewReader(file), chunk); err != nil {
+		return
+	}
+	cached := reflect.ValueOf(codec).Elem().FieldByName("cachedReader")
+	if !cached.IsValid() || cached.Kind() != reflect.Interface || cached.IsNil() {
+		return
+	}
+	ptr := cached.Elem()
+	if ptr.Kind() != reflect.Ptr || ptr.Elem().Kind() != reflect.Struct {
+		return
+	}
+	z := ptr.Elem().FieldByName("z")
+	if !z.IsValid() || z.Kind() != reflect.Struct { // a pointer: the z_stream is in C memory (or not cgo at all)
+		return
+	}
+	nextOut := z.FieldByName("next_out")
+	if !nextOut.IsValid() || !nextOut.CanAddr() {
+		return
+	}
+	slot := (*uintptr)(unsafe.Pointer(nextOut.UnsafeAddr()))
+	var stop int32
+	var seen uintptr
+	done := make(chan struct{})
+	go func() {
+		defer close(done)
+		for atomic.LoadInt32(&stop) == 0 {
+			if v := atomic.LoadUintptr(slot); v>>32 == 0xc0 { // the Go heap arena on linux/amd64
+				seen = v
+				return
+			}
+		}
+	}()
+	buf := make([]byte, chunk.DRange.Size())
+	for end := time.Now().Add(d); time.Now().Before(end) && seen == 0; {
+		select {
+		case <-done:
+		default:
+		}
+		dec, err := codec.MakeDecompressor(bytes.NewReader(file), chunk)
+		if err != nil {
+			break
+		}
+		io.ReadFull(dec, buf)
+	}
+	atomic.StoreInt32(&stop, 1)
+	<-done
+	if seen != 0 {
+		fmt.Printf("cgo rule broken: during inflate, C code stored the Go pointer %#x in Go memory (the z_stream embedded in %s); a concurrent garbage collection that scans it while it points one past the output buffer dies with \"found pointer to free object\"\n", seen, ptr.Elem().Type())
+		os.Exit(4)
+	}
 }
 
 // stressChild is the child process: exits 0 if nothing crashed, 3 on a wrong decode.
@@ -47,6 +119,7 @@ func stressChild(d time.Duration) {
 		f, c := stressFile(n)
 		files = append(files, fc{f, c})
 	}
+	observeDecompressor(files[len(files)-1].file, time.Second)
 	stop := time.Now().Add(d)
 	go func() {
 		for {
@@ -59,35 +132,74 @@ func stressChild(d time.Duration) {
 		go func(g int) {
 			defer wg.Done()
 			var keep [][]byte
-			// one long-lived Reader (hence one long-lived decompressor object) per file
-			var readers []*rac.Reader
-			for k := range files {
-				readers = append(readers, &rac.Reader{ReadSeeker: bytes.NewReader(files[k].file), CompressedSize: int64(len(files[k].file)),
-					CodecReaders: []rac.CodecReader{&raczlib.CodecReader{}}})
-			}
-			for it := 0; time.Now().Before(stop); it++ {
-				k := (g + it) % len(files)
-				r := readers[k]
-				if _, err := r.Seek(0, io.SeekStart); err != nil {
-					fmt.Println("seek:", err)
-					os.Exit(3)
+			hold := func(buf []byte, it int) {
+				if it%3 == 0 {
+					keep = append(keep, buf) // leave holes in the spans
+					if len(keep) > 1000 {
+						keep = keep[500:]
+					}
 				}
-				for off := 0; off < len(files[k].content); off += stressSizes[k] {
-					buf := make([]byte, stressSizes[k]) // one slot: the stream ends one past it
-					if _, err := io.ReadFull(r, buf); err != nil || !bytes.Equal(buf, files[k].content[off:off+stressSizes[k]]) {
-						fmt.Println("wrong decode:", err)
+			}
+			if g%4 == 0 {
+				// through rac.Reader: one long-lived Reader (hence one long-lived decompressor) per file
+				var readers []*rac.Reader
+				for k := range files {
+					readers = append(readers, &rac.Reader{ReadSeeker: bytes.NewReader(files[k].file), CompressedSize: int64(len(files[k].file)),
+						CodecReaders: []rac.CodecReader{&raczlib.CodecReader{}}})
+				}
+				for it := 0; time.Now().Before(stop); it++ {
+					k := (g + it) % len(files)
+					r := readers[k]
+					if _, err := r.Seek(0, io.SeekStart); err != nil {
+						fmt.Println("seek:", err)
 						os.Exit(3)
 					}
-					if (it+off)%3 == 0 {
-						keep = append(keep, buf) // leave holes in the spans
-						if len(keep) > 1000 {
-							keep = keep[500:]
+					for off := 0; off < len(files[k].content); off += stressSizes[k] {
+						buf := make([]byte, stressSizes[k]) // one slot: the stream ends one past it
+						if _, err := io.ReadFull(r, buf); err != nil || !bytes.Equal(buf, files[k].content[off:off+stressSizes[k]]) {
+							fmt.Println("wrong decode:", err)
+							os.Exit(3)
 						}
+						hold(buf, it+off)
 					}
 				}
+				for _, r := range readers {
+					r.Close()
+				}
+				return
 			}
-			for _, r := range readers {
-				r.Close()
+			// the codec alone, as rac.Reader.nextChunk drives it: MakeDecompressor per chunk, then
+			// one Read that fills the buffer exactly
+			type job struct {
+				rs    *bytes.Reader
+				chunk rac.Chunk
+				want  []byte
+			}
+			var jobs []job
+			for k := range files {
+				cr := &rac.ChunkReader{ReadSeeker: bytes.NewReader(files[k].file), CompressedSize: int64(len(files[k].file))}
+				for {
+					c, err := cr.NextChunk()
+					if err != nil {
+						break
+					}
+					jobs = append(jobs, job{bytes.NewReader(files[k].file), c, files[k].content[c.DRange[0]:c.DRange[1]]})
+				}
+			}
+			codec := &raczlib.CodecReader{}
+			for it := 0; time.Now().Before(stop); it++ {
+				j := jobs[(g+it)%len(jobs)]
+				dec, err := codec.MakeDecompressor(j.rs, j.chunk)
+				if err != nil {
+					fmt.Println("MakeDecompressor:", err)
+					os.Exit(3)
+				}
+				buf := make([]byte, len(j.want))
+				if n, err := io.ReadFull(dec, buf); err != nil || !bytes.Equal(buf, j.want) {
+					fmt.Println("wrong decode (codec alone):", n, len(buf), err, j.chunk)
+					os.Exit(3)
+				}
+				hold(buf, it)
 			}
 		}(g)
 	}
@@ -127,7 +239,7 @@ func runStress(r *hlib.Run) {
 		}
 		r.Count("gc-stress:crash")
 		r.Fail("crash:reader-under-gc", "rac.Reader + raczlib crashed the process while decoding a valid file under back-to-back garbage collections: "+strings.ReplaceAll(msg, "\n", " | "),
-			"run harness/cmd/c15 with C15_STRESS="+d+" (32 goroutines decode writer-made files with DChunkSize 16/48/80/224/4096/40960/65536 into exact-size buffers while runtime.GC() loops)")
+			"run harness/cmd/c15 with C15_STRESS="+d+" (32 goroutines decode writer-made files with DChunkSize 16/48/80/224/4096 into exact-size buffers while runtime.GC() loops)")
 	case <-time.After(5 * time.Minute):
 		cmd.Process.Kill()
 		r.Count("gc-stress:timeout")
